@@ -598,6 +598,21 @@ def history(draw, prof):
             continue
         if th.state == R.ST_DEAD and not wild:
             continue
+        if not wild and "task" in prof.kinds and draw(st.integers(0, 2)) == 0:
+            # a task that was paused inside an API region: leave that region while the task is still
+            # paused, so that the subsystem is back to "task body" while no body runs
+            done = False
+            for m in ("V", "6"):
+                top = th.bodies[m][-1] if (m in models and th.bodies[m]) else None
+                ss = th.q.get((m, "subsystem"))
+                if top is not None and top.state == "paused" and ss and len(ss) >= 2 and ss[-1] != R.L(R.L_TASK_BODY[m]):
+                    for pr in model_pairs(m):
+                        if R.L(pr["label"]) == ss[-1] and w.legal(th, pr["leave"]):
+                            done = True
+                            break
+                    break
+            if done:
+                continue
         kind = draw(st.sampled_from(prof.wild_kinds if wild else prof.kinds))
         p = propose(draw, w, th, kind, models, wild)
         if p is None:
